@@ -1,5 +1,5 @@
 # source me: offline Go environment for the harness
-export GOFLAGS=-mod=mod GOPROXY=off GOSUMDB=off GOTOOLCHAIN=local
+export GOFLAGS="-mod=mod -p=4" GOPROXY=off GOSUMDB=off GOTOOLCHAIN=local
 GO=/root/go/pkg/mod/golang.org/toolchain@v0.0.1-go1.26.2.linux-amd64/bin/go
 [ -x "$GO" ] || GO=$(command -v go1.26.8 || command -v go)
 export GO
